@@ -72,6 +72,9 @@ func (l *Locker) Unlock() {
 	}
 }
 
+// ClearOnUnlock removes the OnUnlock callback.
+func (l *Locker) ClearOnUnlock() { l.OnUnlock = nil }
+
 // HeldByMe reports whether the calling thread holds the lock.
 func (l *Locker) HeldByMe() bool { return l.m.Held() && l.owner == mc.ThreadID() }
 
